@@ -53,7 +53,7 @@ def run_case(case):
     out = J.Outcome()
     spec = case["spec"]
     m = M.RefEnum(spec)
-    rnd = random.Random(case["seed"])
+    rnd = J.case_rng(case)
     hists = [list(h) for h in case["hists"]] + [C.rand_history(rnd, m.n) for _ in range(case["nrand"])]
     sc = E.Script()
     modules = []
